@@ -30,7 +30,7 @@ REAL_VS_STUB = {"real": ["incomplete_cooperative.bounds (both SA computers)", "g
 ASSUMPTIONS = ["the for-all-games / for-all-K part is only sampled along the histories drawn",
                "exact mode (integer / dyadic values): exact comparisons; float mode: tolerance 1e-9*max(1,max|v|)",
                "premise (hidden game superadditive, K contains the minimal information) is re-checked independently"]
-PROBES = ["large_n", "torn_then_recomputed", "scribble_then_compute", "negative_values", "registry_game", "exact_mode",
+PROBES = ["dense_knowledge_large_n", "large_n", "torn_then_recomputed", "scribble_then_compute", "negative_values", "registry_game", "exact_mode",
           "float_mode", "unreveal_then_compute"]
 TIERS = {
     "quick": {"runs": 120000, "wall": 40, "batch": 48, "shrink_s": 40},
@@ -100,13 +100,33 @@ def run_large(sim: Sim) -> None:
         for i in range(n):
             base[1 << i] = -abs(base[1 << i]) - 1.0
     values = games.sa_closure(base, n)
-    sim.config.update(n=n, computer="superadditive_cached", exact=True, source="harness-large")
+    sim.config.update(n=n, exact=True, source="harness-large")
     sim.probe("large_n")
     if (values < 0).any():
         sim.probe("negative_values")
-    h = gm.GameHarness(sim, n, "superadditive_cached", values)
+    dense = sim.flip(1, 3, "dense-knowledge")
+    comp_name = "superadditive_cached"
+    if dense and n <= 10 and sim.flip(1, 2, "uncached-at-large-n"):
+        comp_name = "superadditive"  # affordable only when few coalitions are unknown
+    sim.config.update(computer=comp_name, dense=dense)
+    h = gm.GameHarness(sim, n, comp_name, values)
     with sim.guard("C01.operation_raised"):
-        extra = [e for e in h.explorable if rng.random() < 0.02]
+        if dense:
+            # nearly everything is known: 2..40 unknown coalitions of at most a few distinct sizes
+            n_unknown = 2 + sim.choose(39, "n-unknown")
+            sizes_allowed = sim.shuffled(list(range(2, n)), "unknown-sizes")[:1 + sim.choose(4, "n-sizes")]
+            if sim.flip(1, 2, "include-largest-size"):  # boundary sizes: the largest proper coalitions
+                sizes_allowed = sorted(set(sizes_allowed[:3]) | {n - 1})
+            sizes_allowed = sorted(sizes_allowed)
+            by_size = {k: [e for e in h.explorable if games.popcount(e) == k] for k in sizes_allowed}
+            unknown: set[int] = set()
+            for _ in range(n_unknown):  # sizes first, so that the few large coalitions are as likely as the many small
+                k = sizes_allowed[int(rng.integers(len(sizes_allowed)))]
+                unknown.add(int(by_size[k][int(rng.integers(len(by_size[k])))]))
+            extra = [e for e in h.explorable if e not in unknown]
+            sim.probe("dense_knowledge_large_n")
+        else:
+            extra = [e for e in h.explorable if rng.random() < 0.02]
         h.reset_minimal(extra)
         h.compute()
     check_containment(sim, h, True)
@@ -124,7 +144,7 @@ def run_large(sim: Sim) -> None:
 
 def run(sim: Sim) -> None:
     thorough = sim.tier == "thorough"
-    if sim.choose(60 if thorough else 300, "large-mode") == 1 or os.environ.get("VERIF_FORCE_LARGE"):
+    if sim.choose(30 if thorough else 200, "large-mode") == 1 or os.environ.get("VERIF_FORCE_LARGE"):
         return run_large(sim)
     n = 3 + sim.choose(5 if thorough else 4, "n")
     comp_name = sim.pick(games.SA_COMPUTERS, "computer")
